@@ -320,6 +320,10 @@ def faults(rng, case):
     mc = case['cfg']['multiclient']
     if mc is not None:
         variant('mc-unknown-port', lambda cfg: cfg['multiclient'].__setitem__('port', 'zz_nope'))
+        for rp in [p for p in info['ports'] if p['dir'] == 'requires'][:2]:
+            # a multi-client selector can only be put on a provides port
+            variant('mc-port-is-a-requires-port' + ('-injected' if rp['injected'] else ''),
+                    lambda cfg, n=rp['name']: cfg['multiclient'].__setitem__('port', n))
         variant('mc-unknown-claim', lambda cfg: cfg['multiclient'].__setitem__('claim', 'NoClaim'))
         variant('mc-unknown-release', lambda cfg: cfg['multiclient'].__setitem__('release', 'NoRelease'))
         variant('mc-bad-grant', lambda cfg: cfg['multiclient'].__setitem__('grant', ['NotAField']))
